@@ -313,19 +313,33 @@ def describe(case):
     return {'program': source_of(case),
             'queries': [(ast_io.term_text(['fun', q[0], q[1]]) if q[1] else q[0]) for q in case['queries']]}
 
+STRUCTURAL_META = ('neg_only', 'same_answers', 'relations', 'shape', 'estimated_blocks')
+
+def _smaller(case, **kw):
+    """a shrink candidate: the annotations that index into the clauses / queries of the ORIGINAL case (used by the intrinsic
+    oracles of lib/progs_shapes.py and lib/progs_r4.py) do not describe the candidate any more and are dropped, and the origin is
+    marked, so that a candidate counts as failing only through the model comparison and the structure-independent oracles; a
+    case that fails through an annotation-based oracle alone is reported as it was generated"""
+    c = {k: v for k, v in case.items() if k not in STRUCTURAL_META}
+    c.update(kw)
+    o = str(c.get('origin', 'gen'))
+    if not o.endswith('+shrunk'):
+        c['origin'] = o + '+shrunk'
+    return c
+
 def shrink(case):
     cl = case['clauses']
     if len(case['queries']) > 1:
         for i in range(len(case['queries'])):
-            yield dict(case, queries=[case['queries'][i]])
+            yield _smaller(case, queries=[case['queries'][i]])
     for i in range(len(cl)):
-        yield dict(case, clauses=cl[:i] + cl[i + 1:])
+        yield _smaller(case, clauses=cl[:i] + cl[i + 1:])
     for i, (name, args, body) in enumerate(cl):
         if body[0] in ('and', 'or', 'if'):
             for sub in (body[1], body[2]):
-                yield dict(case, clauses=cl[:i] + [[name, args, sub]] + cl[i + 1:])
+                yield _smaller(case, clauses=cl[:i] + [[name, args, sub]] + cl[i + 1:])
         elif body[0] == 'not':
-            yield dict(case, clauses=cl[:i] + [[name, args, body[1]]] + cl[i + 1:])
+            yield _smaller(case, clauses=cl[:i] + [[name, args, body[1]]] + cl[i + 1:])
 
 def stats(cases, obs):
     d = {'programs': len(cases), 'queries': 0, 'queries_where_findall_collected_inner_variables': 0, 'answers_hist': {'0': 0, '1': 0, '2-5': 0, '6+': 0}, 'nonground_answers': 0,
